@@ -38,6 +38,7 @@ from ..x_flow import resolve_local, expand_locals
 from ..x_sites import method_calls
 
 from ..x_http import norm_func
+from ..x_objalias import subst_object_aliases
 
 # private helpers that the rules model by name (sanitisers / summarised effects) and therefore must stay calls
 KEEP_CALLS = {"_format_chunk", "_convert_header_value", "_clear_representation_headers", "_can_keep_alive", "_compressible_type",
@@ -48,11 +49,28 @@ def F(ck, relpath, qualname):
     """The anchored function with its private same-file helpers inlined (function splitting is followed, depth 3)."""
     fi = ck.func(relpath, qualname)
     try:
-        return norm_func(ck.repo, fi, depth=3, no_inline=KEEP_CALLS)
+        return subst_object_aliases(norm_func(ck.repo, fi, depth=3, no_inline=KEEP_CALLS))
     except AnalysisError:
         raise
     except Exception as e:  # the normaliser must never turn into a verdict
         raise AnalysisError("cannot normalise %s: %r" % (qualname, e))
+
+
+def fully_inlined(fi, keep=()):
+    """No call of a private method of ``self`` is left in the normalised function (other than the ones the rules
+    model by name): only then may the *absence* of an effect be reported as a violation."""
+    for c in q.calls(fi.node):
+        if isinstance(c.func, ast.Attribute) and q.dotted(c.func.value) in ("self", "cls") and c.func.attr.startswith("_") and not c.func.attr.startswith("__") and c.func.attr not in KEEP_CALLS and c.func.attr not in keep:
+            return False
+    return True
+
+
+def absent(fi, what, keep=()):
+    """Verdict for 'the required effect was not found': False (a violation) only when the function was fully
+    recognised; otherwise the analysis fails closed."""
+    if not fully_inlined(fi, keep):
+        raise AnalysisError("%s: %s not found, and private helpers remain that could not be inlined" % (fi.qualname, what))
+    return False
 
 
 TECHNIQUE = "flow-sensitive taint to the morsel stores with automaton-decided regex guards; typestate for delete-before-set and emit-before-write; who-may-write on the cookie jar"
@@ -331,6 +349,10 @@ def check_emit(ck):
         ck.ob("C25.emit", fl, it, q.is_call(it, JAR + ".values") and not it.args, "flush iterates over every morsel of the jar (self._new_cookie.values())")
         tgt = l.ast.target.id if isinstance(l.ast.target, ast.Name) else None
         emits = [c for st in l.ast.body for c in q.calls(st) if isinstance(c.func, ast.Attribute) and q.dotted(c.func.value) == "self" and c.func.attr in ("add_header", "set_header")]
+        if not emits:
+            other = [c for st in l.ast.body for c in q.calls(st) if q.call_attr(c) not in ("OutputString", "output", "values")]
+            if other:
+                raise AnalysisError("RequestHandler.flush: the cookie loop emits through %s: unknown idiom" % q.unparse(other[0].func))
         ck.ob("C25.emit", fl, l.ast.iter, len(emits) == 1, "exactly one header is emitted per morsel", construct="emits per morsel: %d" % len(emits))
         for c in emits:
             ck.ob("C25.emit", fl, c, c.func.attr == "add_header" and isinstance(q.arg(c, 0), ast.Constant) and q.arg(c, 0).value == "Set-Cookie",
@@ -372,12 +394,13 @@ def _only_reached_from_set_cookie(ck, fi, depth=3) -> bool:
 
 def check_funnel(ck):
     n = 0
-    for fi in ck.repo.methods(WEB, RH):
+    for fi0 in ck.repo.methods(WEB, RH):
+        fi = subst_object_aliases(fi0)
         writes = [st for st in q.walk_body(fi.node) if isinstance(st, (ast.Assign, ast.AnnAssign, ast.AugAssign, ast.Delete)) and any(p.rstrip("[]") == JAR for p in q.assigned_paths(st))]
         for st in writes:
             n += 1
             ck.ob("C25.funnel", fi, st, _only_reached_from_set_cookie(ck, fi), "the cookie jar is written only by set_cookie or a private helper that nothing but set_cookie calls (so every cookie passes its validation)")
-    ck.floor("C25.funnel", n, 2, "writes to self._new_cookie")
+    ck.floor("C25.funnel", n, 1, "writes to self._new_cookie")
     for nm in ("clear_cookie", "set_signed_cookie"):
         fi = F(ck, WEB, RH + "." + nm)
         ps = [p for p in fi.params() if p != "self"]
